@@ -25,7 +25,9 @@ RULE = ("programs of C02 (loops smaller and larger than the cache, branches into
         "instruction memory; accesses == length of the fetch log (== instruction count in single-cycle mode); hits and "
         "last_hit == read-only reference cache fed the log; per step delta(cycles) == 1 + penalties. Reload: after running P1 "
         "and loading P2, counters read 0/0/False, no valid block remains, fetches return P2's objects. non-trivial = >=1 "
-        "I-cache hit and >=1 replacement, or a reload after the cache held >=1 block; distinct = hash(case)")
+        "I-cache hit and >=1 replacement, or a reload after the cache held >=1 block; distinct = hash(case)"
+        ' A third of the program runs call every inspection function before every step: fetch counters, cycle counter a'
+        'nd fetch log must not move.')
 ASSUMPTIONS = ["the fetch log is taken by an instance-level recording proxy around read_instruction installed by the harness"]
 B = rvprog.B
 
